@@ -34,9 +34,13 @@ Call(op, arg, cls, nst) == st' = nst /\ last' = <<op, arg, cls>>
 
 Start == IF st.utt = "started" \/ ~st.gram THEN Call("start", "", "err", st)
          ELSE Call("start", "", "ok", [st EXCEPT !.utt = "started", !.fed = "none"])
+\* a call with full_utt set carries the whole utterance: it is the only audio call of its utterance (fed = "full")
+Full(kind) == kind \in {"full", "full-nosearch"}
 Feed(kind) ==
     IF st.utt = "started"
-    THEN Call("feed", kind, "n", [st EXCEPT !.fed = More(@, IF kind \in {"tiny", "zero"} THEN (IF kind = "tiny" THEN "tiny" ELSE "none") ELSE "some")])
+    THEN /\ (Full(kind) => st.fed = "none") /\ st.fed # "full"
+         /\ Call("feed", kind, "n", [st EXCEPT !.fed = IF Full(kind) THEN "full"
+                                                       ELSE More(@, IF kind \in {"tiny", "zero"} THEN (IF kind = "tiny" THEN "tiny" ELSE "none") ELSE "some")])
     ELSE Call("feed", kind, "err", st)            \* "Number of frames of data searched, or <0 for error"
 End == IF st.utt = "started" THEN Call("end", "", "ok", [st EXCEPT !.utt = "ended"])
        ELSE Call("end", "", "err", st)
@@ -46,28 +50,32 @@ Query(q, arg) == Call(q, arg, IF st.gram \/ q = "json" THEN "nullobj" ELSE "null
 Info(q, arg, cls) == Call(q, arg, cls, st)
 \* between utterances only
 SetGram(kind) == /\ Between
-                 /\ IF kind \in {"jsgf", "align", "fsg"} THEN Call("gram", kind, "ok", [st EXCEPT !.gram = TRUE])
+                 /\ IF kind \in {"jsgf", "align", "fsg", "jsgffile"} THEN Call("gram", kind, "ok", [st EXCEPT !.gram = TRUE])
                     ELSE Call("gram", kind, "err", st)        \* previous grammar (if any) kept
 AddWord(kind) == /\ Between
                  /\ Call("addword", kind, IF kind = "new" THEN "n" ELSE "err", st)
 Reinit == Between /\ Call("reinit", "", "ok", [st EXCEPT !.utt = "idle", !.gram = FALSE, !.fed = "none"])
+\* the front end and feature computation alone are rebuilt: grammar, dictionary and utterance state stay
+ReinitFeat == Between /\ Call("reinitfeat", "", "ok", st)
 Retain == st.rc = 1 /\ Call("retain", "", "obj", [st EXCEPT !.rc = 2])
 Release == st.rc = 2 /\ Call("release", "", "n", [st EXCEPT !.rc = 1])
 
-FeedKinds == {"tiny", "norm", "f32", "long", "zero", "nosearch"}
-GramKinds == {"jsgf", "align", "fsg", "bad-syntax", "undefined-rule", "unknown-word", "fsg-unknown-word", "no-public"}
+FeedKinds == {"tiny", "norm", "f32", "long", "zero", "nosearch", "full", "full-nosearch"}
+GramKinds == {"jsgf", "align", "fsg", "jsgffile", "bad-syntax", "undefined-rule", "unknown-word", "fsg-unknown-word", "no-public",
+              "jsgffile-missing"}
 WordKinds == {"new", "duplicate", "bad-phone", "empty-word", "empty-pron", "alt-without-base"}
 Queries == {<<"hyp", "0">>, <<"segiter", "0">>, <<"segiter", "1">>, <<"segiter", "2">>, <<"nbestiter", "3">>,
             <<"nbestiter", "1">>, <<"lattice", "0">>, <<"lattice", "1">>, <<"alignwalk", "0">>, <<"alignwalk", "1">>,
             <<"json", "0">>, <<"json", "1">>, <<"json", "2">>}
 
 Next == /\ n < MaxLen /\ n' = n + 1
-        /\ \/ Start \/ End \/ Reinit \/ Retain \/ Release
+        /\ \/ Start \/ End \/ Reinit \/ ReinitFeat \/ Retain \/ Release
            \/ \E k \in FeedKinds : Feed(k)
            \/ \E q \in Queries : Query(q[1], q[2])
            \/ \E k \in GramKinds : SetGram(k)
            \/ \E k \in WordKinds : AddWord(k)
            \/ Info("nframes", "", "n") \/ Info("getcmn", "0", "obj") \/ Info("getcmn", "1", "obj") \/ Info("setcmn", "", "ok")
+           \/ Info("setlogfile", "0", "ok") \/ Info("setlogfile", "1", "ok") \/ Info("setlogfile", "2", "err") \/ Info("prob", "", "ok")
            \/ Info("lookup", "0", "obj") \/ Info("lookup", "1", "null") \/ Info("lookup", "2", "null") \/ Info("config", "", "obj")
 Spec == Init /\ [][Next]_vars
 
